@@ -52,10 +52,11 @@ def _mask(n):
 
 
 class Live:
-    __slots__ = ("solver", "M", "added", "name")
+    __slots__ = ("solver", "M", "added", "name", "added_objs")
 
-    def __init__(self, solver, M, added, name):
+    def __init__(self, solver, M, added, name, added_objs=None):
         self.solver, self.M, self.added, self.name = solver, M, added, name
+        self.added_objs = list(added_objs or [])
 
 
 class Result:
@@ -158,6 +159,11 @@ class Machine:
         if op == "add":
             cs_t = [ir.T(t) for t in step["cs"]]
             cs = [bld(t) for t in cs_t]
+            if step.get("tag") is not None:
+                from . import annos
+
+                cs = [c.annotate(annos.Elim(step["tag"])) for c in cs]  # provenance tag: same predicate, different object
+            lv.added_objs.extend(cs)
             arg = cs if (len(cs) != 1 or step.get("as_list")) else cs[0]
             st_, _ = self._call(i, step, lambda: s.add(arg), allow_unsat=False)
             if st_ == "fail":
@@ -198,7 +204,7 @@ class Machine:
                 return
             st_, b = self._call(i, step, s.branch, allow_unsat=False)
             if st_ == "ok":
-                self.live.append(Live(b, lv.M.copy(), list(lv.added), f"s{len(self.live)}"))
+                self.live.append(Live(b, lv.M.copy(), list(lv.added), f"s{len(self.live)}", lv.added_objs))
                 self.res.stats["branches"] += 1
             return
 
@@ -207,7 +213,7 @@ class Machine:
             if st_ == "ok":
                 self.res.stats["pickles"] += 1
                 if step.get("keep_original") and len(self.live) < 6:
-                    self.live.append(Live(b, lv.M.copy(), list(lv.added), f"s{len(self.live)}"))
+                    self.live.append(Live(b, lv.M.copy(), list(lv.added), f"s{len(self.live)}", lv.added_objs))
                 else:
                     lv.solver = b
             return
@@ -220,6 +226,16 @@ class Machine:
         self.res.stats["queries"] += 1
         M = lv.M & self._extra_mask(extras_t)
         nonempty = bool(M.any())
+        if (self.approx or self.frontend.startswith(("SolverReplacement", "SolverHybrid"))) and not nonempty and op != "sat":
+            # over-approximation: nothing can be concluded from answers about an unsatisfiable set.
+            # Replacement-based frontends answer queries whose expression became concrete through a replacement (x == 2
+            # was added, so x is 2) without consulting the solver, exactly like the concrete-expression shortcut of every
+            # frontend; on an unsatisfiable set such answers are accepted (satisfiable() itself is still checked).
+            try:
+                self._issue_blind(step, s, extras, kw)
+            except claripy.errors.ClaripyError:
+                pass
+            return
 
         if op == "sat":
             st_, r = self._call(i, step, lambda: s.satisfiable(extra_constraints=extras, **kw), allow_unsat=False)
@@ -355,12 +371,24 @@ class Machine:
 
         raise ValueError(f"unknown op {op}")
 
+    def _issue_blind(self, step, s, extras, kw):
+        """Issues the query without checking the answer (it still exercises caches and crash-freedom)."""
+        op = step["op"]
+        if op in ("eval", "eval_to_ast"):
+            s.eval(bld(step["e"]), step["n"], extra_constraints=extras, **kw)
+        elif op == "batch":
+            s.batch_eval([bld(t) for t in step["es"]], step["n"], extra_constraints=extras, **kw)
+        elif op in ("min", "max"):
+            getattr(s, op)(bld(step["e"]), extra_constraints=extras, signed=bool(step.get("signed")), **kw)
+        elif op in ("is_true", "is_false"):
+            getattr(s, op)(bld(step["e"]), extra_constraints=extras, **kw)
+
     # ------------------------------------------------------------------ merge / combine / split / blank_copy
     MAX_LIVE = 8
 
-    def _push(self, solver, M, added):
+    def _push(self, solver, M, added, added_objs=None):
         if len(self.live) < self.MAX_LIVE:
-            self.live.append(Live(solver, M, added, f"s{len(self.live)}"))
+            self.live.append(Live(solver, M, added, f"s{len(self.live)}", added_objs))
 
     def _algebra(self, i, step, lv):
         op = step["op"]
@@ -387,10 +415,12 @@ class Machine:
                 return
             M = lv.M.copy()
             added = list(lv.added)
+            objs = list(lv.added_objs)
             for o in others:
                 M &= o.M
                 added += o.added
-            self._push(r, M, added)
+                objs += o.added_objs
+            self._push(r, M, added, objs)
             return
         if op == "merge":
             conds_t = [ir.T(c) for c in step["conds"]][: len(others) + 1]
@@ -526,6 +556,10 @@ class Machine:
         st_, core = self._call(i, step, lambda: s.unsat_core(extra_constraints=extras) if extras else s.unsat_core(), allow_unsat=False)
         if st_ != "ok":
             return
+        if not M.any() and lv.M.any():
+            return  # unsatisfiable only because of the extra constraints, which are not tracked: no claim to check
+        if not M.any():
+            self.res.stats["core_on_unsat"] = self.res.stats.get("core_on_unsat", 0) + 1
         if M.any():
             if len(core) != 0:
                 self.fail("core-nonempty-on-satisfiable", i, step, {"core": repr(core)[:200]})
@@ -538,13 +572,27 @@ class Machine:
         if not all(isinstance(c, claripy.ast.Bool) for c in items):
             self.fail("core-element-not-a-constraint", i, step, {"core": repr(core)[:300]})
             return
-        added_asts = {id(bld(t)) for t in lv.added} | {id(x) for x in extras}
-        added_hashes = {bld(t).hash() for t in lv.added} | {x.hash() for x in extras}
+        # membership: an element must be a constraint that was added (or an extra), or a top-level conjunct of one
+        # (SolverComposite stores a conjunction as its conjuncts by design)
+        added_hashes = set()
+        for x in [*lv.added_objs, *extras]:
+            added_hashes.add(x.hash())
+            if x.op == "And":
+                added_hashes.update(a.hash() for a in x.args)
+        current = set()
+        try:
+            for c in s.constraints:
+                current.add(c.hash())
+                if c.op == "And":
+                    current.update(a.hash() for a in c.args)
+        except Exception:  # noqa: BLE001
+            pass
         for c in items:
-            if id(c) not in added_asts and c.hash() not in added_hashes:
-                self.fail("core-element-never-added", i, step, {"element": repr(c)[:200]})
+            if c.hash() not in added_hashes:
+                clause = "core-element-is-rewritten-constraint" if c.hash() in current else "core-element-never-added"
+                self.fail(clause, i, step, {"element": repr(c)[:200], "added": [repr(x)[:60] for x in lv.added_objs][:6]})
                 return
-        m = self.sp.full()
+        m = self._extra_mask(extras_t)  # extras are part of the contradiction but are not tracked
         try:
             for c in items:
                 m = m & self.sp.ev_ast(c)
@@ -643,6 +691,8 @@ def steps(draw, groups=("core", "maint", "branch"), names=BVVARS, exact_kw=None)
         kinds += ["add"] * 5 + ["sat", "eval", "eval", "batch", "min", "max", "min", "max", "solution", "solution", "is_true", "is_false", "eval_to_ast"]
     if "truth" in groups:
         kinds += ["add"] * 3 + ["is_true"] * 4 + ["is_false"] * 4 + ["sat"]
+    if "sat-heavy" in groups:
+        kinds += ["sat"] * 6 + ["add"] * 2
     if "maint" in groups:
         kinds += ["simplify", "simplify", "downsize", "z3downsize", "finalize"]
     if "branch" in groups:
@@ -650,9 +700,11 @@ def steps(draw, groups=("core", "maint", "branch"), names=BVVARS, exact_kw=None)
     if "pickle" in groups:
         kinds += ["pickle", "pickle"]
     if "core-track" in groups:
-        kinds += ["add"] * 4 + ["unsat_core"] * 3
+        kinds += ["add"] * 2 + ["add_contra"] * 4 + ["unsat_core"] * 3
     if "algebra" in groups:
         kinds += ["split", "combine", "merge", "merge", "blank_copy", "branch"]
+    if "algebra-heavy" in groups:
+        kinds += ["split", "combine", "combine", "merge", "merge", "merge", "branch", "branch"]
     k = draw(st.sampled_from(kinds))
     step = {"op": k, "s": s}
     if exact_kw is not None and k not in ("add", "simplify", "downsize", "z3downsize", "finalize", "branch", "pickle", "unsat_core", "split", "combine", "merge", "blank_copy"):
@@ -660,6 +712,18 @@ def steps(draw, groups=("core", "maint", "branch"), names=BVVARS, exact_kw=None)
     if k == "add":
         step["cs"] = draw(st.lists(constraints(names), min_size=1, max_size=2))
         step["as_list"] = draw(st.booleans())
+        return step
+    if k == "add_contra":
+        # members of small contradictory families, so that histories reach unsatisfiability through 2-3 constraints
+        x = _v(draw(st.sampled_from(names[:2])))
+        y = _v(draw(st.sampled_from(names)))
+        fam = [("eq", x, _c(1)), ("eq", x, _c(2)), ("ult", x, _c(3)), ("ugt", x, _c(5)), ("eq", ("bvadd", x, y), _c(3)), ("ugt", y, _c(9)), ("ule", x, _c(6)),
+               ("bconst", False), ("ne", x, _c(1)), ("uge", x, y), ("ult", x, y), ("and", ("ugt", x, _c(5)), ("ult", y, _c(2)))]
+        step["op"] = "add"
+        step["cs"] = draw(st.lists(st.sampled_from(fam), min_size=1, max_size=2))
+        step["as_list"] = draw(st.booleans())
+        if draw(st.booleans()):
+            step["tag"] = draw(st.integers(0, 3))
         return step
     if k in ("simplify", "downsize", "z3downsize", "finalize", "branch", "split", "blank_copy"):
         return step
@@ -735,6 +799,19 @@ def histories(draw, groups=("core", "maint", "branch"), max_steps=40, names=BVVA
                 c = draw(st.one_of(constraints(focus), st.tuples(st.sampled_from(ir.BV_CMP), st.just(x), st.just(y)),
                                    st.tuples(st.sampled_from(("ugt", "ult", "ne", "sle")), st.just(y), st.sampled_from(CONSTS).map(_c))))
                 out.append({"op": "add", "s": draw(st.integers(0, 5)), "cs": [c], "as_list": draw(st.booleans())})
+            if "branch" in groups and draw(st.integers(0, 9)) < 4:
+                # branch right after adds (pending, not yet solved constraints) and use the child (index -1 = newest)
+                # before anything is added to it; sometimes echo the parent's next constraint in the child
+                parent = 0  # (indices are taken modulo the number of live solvers, which the branch changes: 0 stays the root)
+                out.append({"op": "branch", "s": parent})
+                if draw(st.booleans()):
+                    c2 = draw(constraints(focus))
+                    out.append({"op": "add", "s": parent, "cs": [c2], "as_list": False})
+                    if draw(st.booleans()):
+                        out.append({"op": "add", "s": -1, "cs": [c2], "as_list": False})
+                for q in qtemplates:
+                    if draw(st.integers(0, 2)):
+                        out.append({**q, "s": -1})
             for q in qtemplates:
                 if draw(st.integers(0, 4)):
                     out.append({**q, "s": draw(st.integers(0, 5))})
@@ -744,8 +821,13 @@ def histories(draw, groups=("core", "maint", "branch"), max_steps=40, names=BVVA
                     out.append(draw(steps(tuple(extra_groups), focus, exact_kw)))
         return out[:max_steps]
     hist = draw(st.lists(steps(groups, focus, exact_kw), min_size=3, max_size=max_steps))
+    cpool = [draw(constraints(focus)) for _ in range(3)]
     out = []
     for stp in hist:
+        if stp["op"] == "add" and draw(st.integers(0, 9)) < 5:
+            stp = {**stp, "cs": [draw(st.sampled_from(cpool))]}
+        if stp["op"] in ("is_true", "is_false") and draw(st.integers(0, 9)) < 5:
+            stp = {**stp, "e": draw(st.sampled_from(cpool))}  # ask about something that was (or will be) added somewhere
         if "e" in stp and stp["op"] not in ("is_true", "is_false") and not ir.is_bool(ir.T(stp["e"])) and draw(st.integers(0, 9)) < 6:
             stp = {**stp, "e": draw(st.sampled_from(pool))}
         out.append(stp)
